@@ -149,6 +149,7 @@ def _dig(sim):
         return bool(x is not None and all(np.isfinite(np.asarray(c.values, dtype=float)).all() for c in (x.data if hasattr(x, "data") else [x])))
 
     out["finite"] = _fin(d)
+    out["positive"] = bool(d is not None and all((np.asarray(c.values, dtype=float) > 0).all() for c in (d.data if hasattr(d, "data") else [d])))
     out["finite_noisy"] = _fin(getattr(sim, "noisy_data", None)) if getattr(sim, "noisy_data", None) is not None else None
     return out
 
@@ -271,13 +272,17 @@ def _gen_calls(rng: Rng, spec, n_max):
         op = rng.choice(["new", "noise", "sparse", "comb"]) if have or rng.random() < 0.15 else "new"
         if op == "new":
             c = dict(op="new", n_obs=rng.choice([1, 2, 3, 5, 8, 13, 30]), n_clusters=rng.randint(1, 4))
+            if spec["kind"] == "bmf":
+                c["kw"] = {"hurst": rng.choice([0.5, 0.01, 0.99, 0.25])}
+            elif spec["kind"] == "bmg":
+                c["kw"] = rng.choice([{}, {"mu": -45.0, "sigma": 0.5}, {"sigma": 9.0}, {"init_point": 1e-6}, {"init_point": 1e6}])
             if spec["kind"].startswith("kl") and rng.random() < 0.3:
                 c["cstd"] = rng.choice(["linear", "exponential", "wiener"])
             have = True
         elif op == "noise":
-            c = dict(op="noise", var=rng.choice([0.0, 0.25, 1.0]))
+            c = dict(op="noise", var=rng.choice([0.0, 0.25, 1.0, 1e-12, 1e6]))
         elif op == "sparse":
-            c = dict(op="sparse", p=rng.choice([0.0, 0.1, 0.5, 0.9, 1.0]), e=rng.choice([0.0, 0.05, 0.3]))
+            c = dict(op="sparse", p=rng.choice([0.0, 0.1, 0.5, 0.9, 1.0, 0.001, 0.999]), e=rng.choice([0.0, 0.05, 0.3]))
         else:
             c = dict(op="comb", var=rng.choice([0.0, 1.0]), p=rng.choice([0.0, 0.2, 0.9]), e=rng.choice([0.0, 0.05]))
         c["g_before"] = rng.choice([0, 0, 1, 3])
@@ -352,6 +357,10 @@ def gen_cases(rng: Rng, tier):
     # legal-but-unusual sampling grids, the same every run: decreasing order, negative domain, a single step, integer dtype
     bm_grid = [(name, order, t0, m, gd) for name in ("standard", "geometric") for order in ("inc", "dec")
                for (t0, m, gd) in ((Fraction(0), 5, "float64"), (Fraction(-3), 4, "float64"), (Fraction(0), 2, "float64"), (Fraction(0), 6, "int64"))]
+    extreme = [dict(mu=-60.0, sigma=1.0), dict(mu=-45.0, sigma=0.5), dict(mu=0.0, sigma=9.0), dict(mu=-40.0, sigma=10.0), dict(mu=30.0, sigma=0.01),
+               dict(mu=0.0, sigma=1.0, init="1/1048576"), dict(mu=0.0, sigma=1.0, init="1048576"), dict(mu=-60.0, sigma=9.0, init="1/1024")]
+    bm_grid += [("geometric", "inc", Fraction(0), mm, "float64") for mm in (9, 5, 9, 9, 5, 5, 5, 9)]
+    n_plain = len(bm_grid) - len(extreme)
     for bi in range(len(bm_grid) + nb):
         if bi < len(bm_grid):
             name, order, t0_, m, gd_ = bm_grid[bi]
@@ -373,6 +382,12 @@ def gen_cases(rng: Rng, tier):
             c["sigma"] = float(rng.choice([1.0, 0.5, 2.0]))
             if c["default_init"] is False and F(c["init"]) <= 0 and bi < len(bm_grid):
                 c["init"] = "5/2"
+            if n_plain <= bi < len(bm_grid):
+                # extreme but legal parameter values: strongly negative drift, large volatility, tiny / huge start value
+                ex = extreme[bi - n_plain]
+                c["mu"], c["sigma"], c["span"], c["extreme"] = ex["mu"], ex["sigma"], "1", True
+                if "init" in ex:
+                    c["init"], c["default_init"] = ex["init"], False
         yield c
     for _ in range(20 if tier == "quick" else 200):
         m, n_obs = rng.randint(2, 9), rng.randint(1, 4)
@@ -1086,6 +1101,8 @@ def oracle(case, impl):
                 if call["op"] in ("noise", "comb") and r["dig"].get("finite") and r["dig"].get("finite_noisy") is False:
                     bad("structure_after_operations", entry, f"call {ci} ({call['op']}): noisy curves of finite data contain NaN", ["data_changed_by_later_op"])
                 prev_dig[nm] = r["dig"]
+            if call["op"] == "new" and a["status"] == "ok" and spec["kind"] == "bmg" and a["dig"].get("positive") is False:
+                bad("geometric_positive", entry, f"call {ci}: a geometric path is not strictly positive (parameters {call.get('kw', {})})", ["extreme_parameters"])
             if call["op"] == "new" and a["status"] == "ok" and spec["kind"] in ("bms", "bmg", "bmf", "ds") and a["dig"].get("finite") is False:
                 bad("brownian_finite", entry, f"call {ci}: the simulated paths are not finite (grid: {spec.get('grid_var', 'inc')}{', integer' if spec.get('grid_int') else ''})", ["unusual_grid"])
             if call["op"] == "new" and a["status"] == "ok":
